@@ -88,9 +88,15 @@ Template(t, seed) ==
                 Mk(7, 3, H, org, <<1, 1, 1>>, <<1, 2, 3, 3, 1, 2>>, HFrames(seed, 3, H, org, 6, 2, 0), seed, 3)
     [] t = 8 -> LET H == Tri3(45, 45, 45, 0, 0, 0)  org == <<0, 0, 0>> IN
                 Mk(8, 3, H, org, <<0, 0, 0>>, <<1, 2, 2, 1, 1, 2, 1, 2>>, HFrames(seed, 3, H, org, 8, 2, 14), seed, 4)
+    \* tilted cells with two EQUAL edges: exchanging the two axes gives another cell with the same diagonal
+    [] t = 11 -> LET H == Tri2(21, 8, 21)  org == <<1, 0 - 4>> IN
+                 Mk(11, 2, H, org, <<1, 1>>, <<1, 2, 2, 1, 1, 2>>, HFrames(seed, 2, H, org, 6, 2, 0), seed, 3)
+    [] t = 12 -> LET H == Tri3(21, 21, 35, 5, 0 - 4, 6)  org == <<0 - 3, 2, 0>> IN
+                 Mk(12, 3, H, org, <<1, 1, 1>>, <<1, 2, 1, 2, 2, 1>>, HFrames(seed, 3, H, org, 6, 1, 0), seed, 3)
 
 \* the seeds for which the templates are tie-free (chosen with Mode = "probe")
-Seeds == <<1, 6, 1, 4, 2, 1, 2, 2>>
+Seeds == <<1, 6, 1, 4, 2, 1, 2, 2, 0, 0, 1, 1>>
+Templates == (1..8) \cup {11, 12}
 
 \* a 3 x 3 patch of the square lattice (spacing 7/3) filling a periodic 21 x 21 cell, two frames
 \* (the second one slightly distorted), and a tetrahedrally coordinated cluster with open boundaries
@@ -107,8 +113,8 @@ TetraCluster ==
       p2 == [i \in 1..9 |-> VAdd(p1[i], <<(i % 3) - 1, ((2 * i) % 3) - 1, ((i * i) % 3) - 1>>)]
   IN  Mk(10, 3, H, org, <<0, 0, 0>>, <<1, 2, 2, 2, 2, 1, 1, 1, 1>>, <<p1, p2>>, 6, 4)
 
-NBase == 10
-Base(n) == IF n <= 8 THEN Template(n, Seeds[n]) ELSE IF n = 9 THEN SquarePatch ELSE TetraCluster
+NBase == 12
+Base(n) == IF n \in Templates THEN Template(n, Seeds[n]) ELSE IF n = 9 THEN SquarePatch ELSE TetraCluster
 
 \* ------------------------------------------------------------ generator catalogues
 Cat2 == << GTrans(<<5, 0 - 13>>, 0, 0), GTrans(<<0 - 17, 29>>, 0, 1), GTrans(<<23, 4>>, 1, 0),
@@ -194,7 +200,7 @@ Init ==
      /\ sz = Run(c0, w)
      /\ sz.ok
   \/ /\ Mode = "probe"
-     /\ b \in 1..8
+     /\ b \in Templates
      /\ w \in {<<s>> : s \in 1..24}
      /\ (b + w[1]) % NSHARDS = SHARD
      /\ c0 = 0 /\ sz = 0
@@ -219,6 +225,7 @@ St == sz
 InvBaseTieFree    == Small => TieFree(C0) /\ WellFormed(C0)
 InvTieFreeKept    == Small => TieFree(St.c) /\ WellFormed(St.c) /\ ActionWellFormed(C0, St)
 InvTables         == Small => TablesEquivariant(C0, St)
+InvCell           == Small => CellEquivariant(C0, St)
 InvPairVectors    == Small => PairVectorsEquivariant(C0, St) /\ GramInvariant(C0, St)
 InvPairHist       == Small => HistEquivariant(C0, St)
 InvDensityModes   == Small => ModesEquivariant(C0, St)
@@ -263,18 +270,22 @@ ActOf(c, st) ==
 CaseSmall ==
   [ m |-> "Symmetry", mode |-> "small", base |-> b, word |-> w, c |-> C0, c2 |-> St.c,
     act |-> ActOf(C0, St), obs |-> ObsOf(C0, St),
+    boo3 |-> BooDegrees(NPart(C0), St, b + Len(w) + SALT), sched |-> Schedule(Shape(C0), St),
+    cellrel |-> [tilted_axes |-> TiltedAxesWord(C0, St), same_diag |-> SameDiagOtherCell(C0, St)],
     flags |-> Flags(C0), margin |-> Margin(C0) ]
 CaseTraj ==
-  LET sk == c0 IN
+  LET sk == c0
+      sh == [d |-> sk.d, diag |-> IsDiagonal(sk.H), ppp |-> sk.ppp, nfr |-> Tr[b].nfr, n |-> Tr[b].N] IN
       [ m |-> "Symmetry", mode |-> "traj", base |-> Tr[b].id, word |-> w,
+        boo3 |-> BooDegrees(Tr[b].N, sz, b + Len(w) + SALT), sched |-> Schedule(sh, sz), ax |-> sz.ax,
+        same_diag |-> (~sh.diag /\ sz.ax # IdPerm(sk.d) /\ PermVec(sz.ax, Tr[b].L) = Tr[b].L),
         tab  |-> [R |-> sk.R, dia |-> sk.dia, E |-> sk.E, ms |-> sk.ms, an |-> sk.an, ad |-> sk.ad],
         tab2 |-> [R |-> sz.c.R, dia |-> sz.c.dia, E |-> sz.c.E, ms |-> sz.c.ms],
         sigma |-> sz.sigma, gr_cols |-> ColMapGr(sk, sz), sq_cols |-> ColMapSq(sk, sz),
         lin |-> sz.lin, mm |-> MM(sz), S1 |-> sz.c.S, reflects |-> (sk.d = 2 /\ Reflects(sz)),
         psi_phase |-> IF sk.d = 2 THEN [l \in 1..8 |-> PsiPhaseT(sz, l)] ELSE << >>,
         vecs |-> sk.vecs, vecs2 |-> sz.c.vecs,
-        obs |-> SelectSeq(ObsNames, LAMBDA ob : Respects(ob, [d |-> sk.d, diag |-> IsDiagonal(sk.H), ppp |-> sk.ppp,
-                                                                    nfr |-> Tr[b].nfr, n |-> Tr[b].N], sz)) ]
+        obs |-> SelectSeq(ObsNames, LAMBDA ob : Respects(ob, sh, sz)) ]
 Emit == Gen => IF Mode = "small" THEN PrintT(ToJson(CaseSmall))
                ELSE IF Mode = "traj" THEN PrintT(ToJson(CaseTraj)) ELSE TRUE
 =============================================================================
